@@ -440,8 +440,10 @@ fn main() {
     });
 
     // S4 extension by k digits
-    let ks: Vec<u64> = if tier.is_thorough() { (0..=5000).collect() } else { (0..=620).chain([1000, 1024, 4096, 5000]).collect() };
-    run.bound("S4_extension", if tier.is_thorough() { json!("every k 0..=5000") } else { json!("every k 0..=620 plus 1000, 1024, 4096, 5000") });
+    let mut ks: Vec<u64> = if tier.is_thorough() { (0..=5000).collect() } else { (0..=620).chain([1000, 1024, 4096, 5000]).collect() };
+    // ... and the rest of the gap alphabet: both sides of 16*590 = 9440 (the power-of-ten helper recurses twice), 10000, 65536
+    ks.extend(gaps().into_iter().filter(|g| *g > 5000));
+    run.bound("S4_extension", if tier.is_thorough() { json!("every k 0..=5000 plus 9435..9445, 9999, 10000, 65535..65556") } else { json!("every k 0..=620 plus 1000, 1024, 4096, 5000, 9435..9445, 9999, 10000, 65535..65556") });
     let ext_ops: Vec<Dec> = vec![Dec::new(1, 0), Dec::new(-7, 2), Dec::new(0, 1), Dec { n: pow10(19) - 1, s: -3 }, Dec { n: big(&filler_digits(run.seed(), 40, 40)), s: 10 }, Dec::new(12500, 3)];
     run.par("S4 scale/precision extension", ks.len(), |i| {
         let mut t = Tally::default();
